@@ -353,6 +353,19 @@ impl Ctl {
         // position of the tail pointer in the chain that starts at the head sentinel (0 = the sentinel itself, -1 = not in it)
         let tailpos: i64 = if tl == h { 0 } else { nodes.iter().position(|x| x.0 == tl).map(|i| i as i64 + 1).unwrap_or(-1) };
         let _ = write!(s, ",\"tailpos\":{},\"sites\":{:?}", tailpos, self.ws.iter().map(|w| w.at.unwrap_or(0)).collect::<Vec<_>>());
+        // the call each thread is in (name, entry id)
+        let cur: Vec<String> = self
+            .sh
+            .iter()
+            .map(|h| match &h.cur {
+                Some(Op::Insert(id)) => format!("{{\"n\":\"insert\",\"id\":{}}}", id),
+                Some(Op::Delete(id)) => format!("{{\"n\":\"delete\",\"id\":{}}}", id),
+                Some(Op::Traverse) => "{\"n\":\"traverse\",\"id\":0}".to_string(),
+                Some(o) => format!("{{\"n\":\"{}\",\"id\":0}}", o.name()),
+                None => "{\"n\":\"\",\"id\":0}".to_string(),
+            })
+            .collect();
+        let _ = write!(s, ",\"cur\":[{}]", cur.join(","));
         let _ = write!(s, ",\"odd\":{},\"q\":{:?},\"tail_reachable\":{}", what.contains(" ODD "), nodes.iter().map(|x| x.1).collect::<Vec<_>>(), !dangling);
         let ld = match LIST.lock().unwrap().as_ref() {
             Some(l) => unsafe { l.dump() },
